@@ -58,7 +58,14 @@ func genC17Program(t *rapid.T, client int, uuidBase *int, children []string) []*
 		*uuidBase++
 		logOp := kit.Op{Op: "insert", Table: "Log", UUID: kit.MkUUID(*uuidBase), Row: kit.Row{"tag": kit.Scalar(kit.Str(tag)), "client": kit.Scalar(kit.Int(int64(client)))}}
 		tx := &c17Txn{Tag: tag, Client: client, Seq: i}
-		switch rapid.SampledFrom([]string{"incr", "incr", "insert-if-absent", "insert-if-absent", "move", "cas", "detach", "detach+claim", "retire+claim", "incr-scratch"}).Draw(t, "kind") {
+		switch rapid.SampledFrom([]string{"incr", "incr", "insert-if-absent", "insert-if-absent", "move", "cas", "detach", "detach+claim", "retire+claim", "incr-scratch", "own+list"}).Draw(t, "kind") {
+		case "own+list":
+			// an item changes hands and the same transaction lists the items of the others: the
+			// item just taken is not among them
+			k := rapid.SampledFrom([]string{"k1", "k2", "k3", "k4"}).Draw(t, "key")
+			tx.Kind = "own+list"
+			tx.Ops = []kit.Op{{Op: "update", Table: "Item", Where: []kit.Cond{eqStr("key", k)}, Row: kit.Row{"owner": kit.Scalar(kit.Int(int64(client)))}},
+				{Op: "select", Table: "Item", Where: []kit.Cond{{Col: "owner", Fn: "!=", Val: kit.Scalar(kit.Int(int64(client)))}}}, logOp}
 		case "retire+claim":
 			// a scratch row is deleted and a contested key claimed: when the claim fails the row
 			// is still there for everybody who comes later
@@ -440,6 +447,24 @@ func c17Test(t *testing.T, aged bool) {
 				case "mutate", "update", "delete":
 					if tx.Results[i].Count != res.Results[i].Count {
 						fail("serial.result", "transaction %s op %d: count %d, serial execution in the observed order gives %d", tag, i, tx.Results[i].Count, res.Results[i].Count)
+					}
+				case "select":
+					got, want := []string{}, []string{}
+					for _, r := range tx.Results[i].Rows {
+						u, _ := r["_uuid"].(ovsdb.UUID)
+						var owner interface{} = 0 // select leaves out columns that hold their default
+						if o, ok := r["owner"]; ok {
+							owner = o
+						}
+						got = append(got, fmt.Sprintf("%s owner=%v", u.GoUUID, owner))
+					}
+					for _, r := range res.Results[i].Rows {
+						want = append(want, fmt.Sprintf("%s owner=%v", r["_uuid"].K[0].S, r["owner"].K[0].I))
+					}
+					sort.Strings(got)
+					sort.Strings(want)
+					if fmt.Sprint(got) != fmt.Sprint(want) {
+						fail("serial.result", "transaction %s op %d: select returned %v, serial execution in the observed order gives %v", tag, i, got, want)
 					}
 				case "insert":
 					if tx.Results[i].UUID.GoUUID != res.Results[i].UUID {
